@@ -247,7 +247,8 @@ func rejectPiece(kind string, k int, consts, funcs []string) piece {
 		}
 	case "undefined-in-func":
 		// the failure happens while the compiler is inside a function body
-		forms := []string{"func rjf_%d() { return nosuchname_%d }", "rjv_%d := func(a) { return func() { return a + nosuchname_%d } }", "[1].map(func(x) { nosuchname_%[2]d })"}
+		forms := []string{"func rjf_%d() { return nosuchname_%d }", "rjv_%d := func(a) { return func() { return a + nosuchname_%d } }", "[1].map(func(x) { nosuchname_%[2]d })",
+			"%[1]d | func(v) { return nosuchname_%[2]d }", "[%[1]d] | len | func(v) { return v + nosuchname_%[2]d }", "try(func() { return nosuchname_%[2]d }, func(e) { return %[1]d })"}
 		return piece{Text: fmt.Sprintf(forms[k%len(forms)], k, k), Reject: "undefined-in-func"}
 	case "dup-func":
 		if len(funcs) > 0 {
